@@ -42,6 +42,14 @@ pub fn plan() -> Plan {
         thorough_histories: 400000,
         s5: None,
         enumerate_session_end: None,
+        enumerate_symbols: Some((2, 3, {
+            let mut e = base_profile("c03-enumerated");
+            e.clients = (2, 2);
+            e.persistent_pm = 0;
+            e.will_pm = 0;
+            e.max_outgoing = vec![10];
+            e
+        })),
     }
 }
 
